@@ -73,7 +73,12 @@ META = {
         "Pyoda.GenAgree.C14W.gen_Writer_writeOffset_eq", "Pyoda.GenAgree.C14W.gen_Writer_writeString_eq",
         "Pyoda.GenAgree.C14W.gen_checkNotNullDict_eq", "Pyoda.GenAgree.C14W.gen_Writer_writeDictionary_loop1_eq",
         "Pyoda.GenAgree.C14W.gen_Writer_writeDictionary_eq", "Pyoda.GenAgree.C14W.gen_Writer_writeTransitionNone_eq",
-        "Pyoda.GenAgree.C14W.gen_Writer_writeTransitionSome_eq",
+        "Pyoda.GenAgree.C14W.gen_Writer_writeTransitionSome_eq", "Pyoda.GenAgree.C14W.gen_YearOffset_mode_eq",
+        "Pyoda.GenAgree.C14W.gen_YearOffset_advanceDayOfWeek_eq", "Pyoda.GenAgree.C14W.gen_YearOffset_timeOfDay_eq",
+        "Pyoda.GenAgree.C14W.gen_Recurrence_name_eq", "Pyoda.GenAgree.C14W.gen_Recurrence_savings_eq",
+        "Pyoda.GenAgree.C14W.gen_Recurrence_yearOffset_eq", "Pyoda.GenAgree.C14W.gen_Recurrence_fromYear_eq",
+        "Pyoda.GenAgree.C14W.gen_Recurrence_toYear_eq", "Pyoda.GenAgree.C14W.gen_YearOffset_write_eq",
+        "Pyoda.GenAgree.C14W.gen_Recurrence_write_eq", "Pyoda.GenAgree.C14W.gen_AltMap_write_eq",
     ],
     "trusted_base": [
         "translator tie shared with C14 (tools/py2lean.py; GenAgreeC14 / C14S / C14W): the reader and writer primitives, the field framing step, and the payload readers that read themselves from a reader object — _ZoneYearOffset.read, _ZoneRecurrence.read (= the Session machines readYearOffsetM / readRecurrenceM), MapZone._read (= readMapZoneX) and TzdbZoneLocation._read with its `except ValueError -> InvalidPyodaDataError` (= readZoneLocationX) — are re-translated from the source on every run and proved equal to the codec model this property's theorems are about. TzdbDateTimeZoneSource.validate() is tied in slices (GenAgreeC14V): the runs of its top-level statements that are the model's groups 1-2 (canonClosed, hasPrimary), 3 (idsOK, the nested loops with the mapped_tzdb_ids set), 5 and 6 (locsOK; for 6 under the constructor's invariant that a 1970 location has a country — otherwise the error message's countries[0] raises IndexError first) are translated as procedures of their own and proved to return normally iff the model's Boolean holds. WindowsZones._read and TzdbZone1970Location._read are tied too (gen_WindowsZones_read_eq, gen_Zone1970Location_read_eq). Outside the tie (correspondence only): group 4 of validate() (_to_lookup, set comprehension, next()/StopIteration, any(generator)), the two derived-map builders (dict comprehensions, sorted, walrus truthiness), _FixedDateTimeZone id making / parsing (the text engine: OffsetPattern.general_invariant). _FixedDateTimeZone.read, the precalculated-zone and alternating-map readers are tied (gen_FixedZone_read_eq, gen_PrecalcZone_read_eq, gen_AltMap_read_eq)",
